@@ -769,3 +769,21 @@ mod tests {
         // assert_eq!(weighted_model_count.0, 0.017015015625000005);
     }
 }
+
+#[cfg(feature = "verif_hooks")]
+impl<'a, T: IteTable<'a, BddPtr<'a>> + Default> RobddBuilder<'a, T> {
+    /// `(capacity, number of nodes, hits)` of the unique table
+    pub fn verif_table_stats(&self) -> (usize, usize, usize) {
+        self.compute_table.borrow().verif_cap_len_hits()
+    }
+
+    /// slot dump of the unique table: `(occupied, hash, probe length)`
+    pub fn verif_table_slots(&self) -> Vec<(bool, u64, u8)> {
+        self.compute_table
+            .borrow()
+            .verif_slots()
+            .into_iter()
+            .map(|(o, h, p, _)| (o, h, p))
+            .collect()
+    }
+}
